@@ -19,7 +19,7 @@ namespace {
 
 void runC09(const Scenario& sc, vf::Result& res) {
     sess::History h;
-    sess::runSession(sc, h, res);
+    harness_session_run(&sc, &h, &res);
     uci::Model m;
     uci::buildModel(h, m);
     uci::checkContract(h, m, res);
@@ -68,7 +68,27 @@ void genC09(uint64_t seed, int tier, Scenario& sc) {
             pushSend(sc, genGo(r, gp, cost, go, nr));
             if (nr) { genRelease(r, sc, cost, go.maxNodes); pushSend(sc, r.chance(0.3) ? "ponderhit" : "stop"); }
             if (r.chance(0.5)) sc.ops.push_back("wait_bestmove");
-        } else if (k < 50) pushSend(sc, "setoption name Threads value " + std::to_string(r.range(1, 8)));
+        } else if (k < 40) { sc.ops.push_back("wait_bestmove"); genWithheldWindow(r, sc, gp, cost); }
+        else if (k < 46) {
+            // the GUI re-reads the option list while the engine thread is still applying an option whose listener has
+            // synchronisation points of its own (thread start/join, pooled clearing of a big table)
+            if (r.chance(0.5)) sc.ops.push_back("wait_bestmove");
+            int nq = (int)r.range(1, 3);
+            for (int q = 0; q < nq; q++) {
+                int o = (int)r.below(4);
+                if (o == 0) pushSend(sc, "setoption name Threads value " + std::to_string(r.range(1, 8)));
+                else if (o == 1) pushSend(sc, "setoption name Hash value " + std::to_string(r.range(17, 64)));
+                else if (o == 2) pushSend(sc, "setoption name Hash value " + std::to_string(r.range(1, 8)));
+                else pushSend(sc, genSetOption(r, false));
+                if (r.chance(0.7)) {
+                    // the engine thread stalls somewhere inside the application of the option (a descheduled thread)
+                    sc.ops.push_back("wait_steps " + std::to_string(r.logRange(1, 40)));
+                    sc.ops.push_back("freeze engine " + std::to_string(r.logRange(50, 600)));
+                }
+                pushSend(sc, "uci");
+            }
+        }
+        else if (k < 50) pushSend(sc, "setoption name Threads value " + std::to_string(r.range(1, 8)));
         else if (k < 62) pushSend(sc, genSetOption(r, false));
         else if (k < 70) pushSend(sc, "ucinewgame");
         else if (k < 76) pushSend(sc, "setoption name Clear Hash");
